@@ -120,6 +120,29 @@ fn check_laws(cx: &mut Cx, pool: &[V], tag: &str) {
             }
         }
     }
+    // the public `Number` type (what custom filters receive) must order and equate numbers like values do
+    let nums: Vec<(usize, tera::Number)> = pool
+        .iter()
+        .enumerate()
+        .filter_map(|(i, v)| match v {
+            V::F64(f) => Some((i, tera::Number::Float(*f))),
+            other => other.i128().filter(|_| other.is_int()).map(|x| (i, tera::Number::Integer(x))),
+        })
+        .collect();
+    for (i, a) in &nums {
+        for (j, b) in &nums {
+            let r = guard(|| (a == b, a.partial_cmp(b)));
+            cx.eval();
+            if let Ok((e, pc)) = r {
+                let me = model::eq(&pool[*i], &pool[*j]);
+                let mo = model::num_cmp(&pool[*i], &pool[*j]);
+                if e != me || pc != mo {
+                    cx.violation("C15/number-api-differs-from-exact-order", format!("Number {a:?} vs {b:?}: == is {e}, partial_cmp {pc:?}; exact: == {me}, order {mo:?}"), json!({"a": pool[*i].tagged(), "b": pool[*j].tagged()}));
+                }
+            }
+        }
+    }
+    cx.count("number_api_pairs", (nums.len() * nums.len()) as u64);
     cx.count("pairs", (n * n) as u64);
     for i in 0..n {
         if !l.eqm[i][i] {
